@@ -12,11 +12,11 @@ PROP = dict(
         "hash identifies content: every reference operation carries the serialization nb(h) of the node its hash names, and a node's bytes name its children (wf) - i.e. no double-SHA-256 collision among the nodes that occur",
         "counters are unbounded integers in the model (Go: int32)",
         "a GC pass is never asked for a height above the current one (blockchain.go tryRunGC: target = persisted height - MaxTraceableBlocks)",
-        "the theorems are stated for the module with the repair fixes/F30 (trie re-read from the committed root after a dropped block); on histories without dropped blocks this is the code as it stands (C11_as_is_without_drops); for the code as it stands with dropped blocks the statement is refuted (C11_uncommitted_harmless_refuted, finding F30)",
+        "the theorems speak about the module as it stands since the repair of finding F30 (/repo commit cb1c052: trie re-read from the committed root after a dropped block); the pre-fix semantics is kept in the model (reset=false) only to record the refutation C11_uncommitted_harmless_before_fix_refuted",
     ],
     modelled="the trie is abstract (a tree of hashes with child lists); the placement of addRef/removeRef inside trie.go/batch.go is not modelled but observed (hook) and checked against the walker's recount on every block; in-place aliasing of byte slices (H6) is outside the value-semantics model and is checked by the harness only",
 )
 META = dict(
-    text="Proved in Coq for every sequence of committed blocks, dropped blocks, GC passes and Collapse calls in each trie mode: ModeLatest table = exactly the occurrences of the latest trie; ModeGC: active = occurrences, left-at-block-b = inactive with stamp b, nothing else; ModeAll complete; every retained trie reads back node for node; GC(G) removes nothing a height >= G needs; any root reads as NotFound or as exactly its own tree; Flush is independent of map order and never panics. The model is tied to the real mpt.Trie and stateroot.Module by whole-history correspondence with an independent recount. Partial: the concrete trie is abstracted behind one interface hypothesis (net reference change = change of occurrences), checked at run time; uncommitted_harmless holds only with the repair F30 and is refuted for the code as it stands (known finding, reproduced).",
+    text="Proved in Coq for every sequence of committed blocks, dropped blocks, GC passes and Collapse calls in each trie mode: ModeLatest table = exactly the occurrences of the latest trie; ModeGC: active = occurrences, left-at-block-b = inactive with stamp b, nothing else; ModeAll complete; every retained trie reads back node for node; GC(G) removes nothing a height >= G needs; any root reads as NotFound or as exactly its own tree; Flush is independent of map order and never panics. The model is tied to the real mpt.Trie and stateroot.Module by whole-history correspondence with an independent recount. Dropped blocks are harmless (finding F30, reproduced on the real stateroot.Module, was repaired in /repo; the pre-fix semantics is kept refuted as a record). Partial: the concrete trie is abstracted behind one interface hypothesis (net reference change = change of occurrences), checked at run time on every block.",
     note="Trusted: Coq kernel and vm_compute, the hand-written model (tied by correspondence, not by translation), the Go harness with its own node parser, the orchestration script. Assumed: no hash collision among occurring nodes; the interface hypothesis on the concrete trie (C10).",
 )
